@@ -105,6 +105,12 @@ func genC13(rt *rapid.T) CaseC13 {
 	c.MidWrite = rapid.IntRange(0, 2).Draw(rt, "midWrite") == 0
 	if !c.MidWrite && !c.Pending {
 		c.PreHeld = rapid.SampledFrom([]int{0, 0, 1, 2, 3, 101, 102}).Draw(rt, "preHeld")
+		if c.PreHeld > 0 && c.Others > 0 {
+			// the snapshot should have several heads: other writers' concurrent branches are merged last
+			for w := 1; w <= c.Others; w++ {
+				c.Steps = append(c.Steps, StepC13{Kind: "remote", W: w, N: rapid.IntRange(1, 2).Draw(rt, "tailn"), Size: 8, Key: w}, StepC13{Kind: "merge", W: w})
+			}
+		}
 	}
 	return c
 }
